@@ -94,8 +94,8 @@ var f7MemberNotes = [][]string{
 // operand naming: (receiver name or "", source parameter name or "", further parameter name or "", style, reverse, error result)
 // (names that shadow the USER's own types or packages - `D *S`, `ext *S` - are the user's clash, DESIGN §11; the
 // names below clash, if at all, with names the generator invents)
-var f7Recv = []string{"r", "x1", "my_pet", "_", "_r", "é", "type", "dst", "src", "err", "arg0", "1x", "r.x", "e", "i"}
-var f7SrcNames = []string{"", "s", "_", "dst", "src", "err", "arg0", "é", "e", "i"}
+var f7Recv = []string{"r", "x1", "my_pet", "_", "_r", "é", "type", "dst", "src", "err", "arg0", "1x", "r.x", "e", "i", "len", "nil"}
+var f7SrcNames = []string{"", "s", "_", "dst", "src", "err", "arg0", "é", "e", "i", "len", "copy"}
 var f7ArgNames = []string{"", "n", "_", "dst", "src", "err", "s"}
 
 func familyIdents() []*scen.Cell {
